@@ -2,8 +2,8 @@
 
 Forward substitution of *adjacent single-use temporaries*: a statement `t = e` whose target is a plain local name
 that is stored exactly once and loaded exactly once in the whole function, the load sitting in the immediately
-evaluated part of the next statement of the same block (other such temporaries may stand in between), is folded
-into that statement.  This undoes the 'extract variable' refactoring, so the rules judge `f(a.shape[0])` and
+evaluated part of the next statement of the same block (other such temporaries - and, for a call-free value, unrelated
+plain assignments to other names - may stand in between), is folded into that statement.  This undoes the 'extract variable' refactoring, so the rules judge `f(a.shape[0])` and
 `n = a.shape[0]; f(n)` alike.  Line numbers of the substituted expression are kept.
 
 The substitution moves the evaluation of `e` behind the sub-expressions of the consumer that are evaluated before the
@@ -87,7 +87,24 @@ def _fold_block(stmts: List[ast.stmt], counts) -> bool:
         t = _is_temp_def(st, counts)
         if t is not None:
             j = i + 1
-            while j < len(stmts) and _is_temp_def(stmts[j], counts) is not None and _find_load(stmts[j], t) is None:
+            e_names = {x.id for x in ast.walk(st.value) if isinstance(x, ast.Name)}
+            e_pure = not any(isinstance(x, (ast.Call, ast.Await, ast.Yield, ast.YieldFrom, ast.NamedExpr)) for x in ast.walk(st.value))
+
+            def passable(s2: ast.stmt) -> bool:
+                # another temporary, or (for a call-free value) an unrelated plain assignment that cannot change it
+                if _find_load(s2, t) is not None:
+                    return False
+                if _is_temp_def(s2, counts) is not None:
+                    return True
+                if not e_pure:
+                    return False
+                if isinstance(s2, ast.Assign) and all(isinstance(x, ast.Name) and x.id not in e_names for x in s2.targets):
+                    return True
+                if isinstance(s2, ast.AugAssign) and isinstance(s2.target, ast.Name) and s2.target.id not in e_names:
+                    return True
+                return False
+
+            while j < len(stmts) and passable(stmts[j]):
                 j += 1
             if j < len(stmts):
                 for root in _eager_roots(stmts[j]):
